@@ -135,18 +135,65 @@ def numeric(ctx):
             if ra.shape != rb.shape or not np.allclose(ra, rb, rtol=1e-5, atol=1e-6):
                 bad.append(dict(what="PyTorchSIFrameComputer differs", N=len(x), dtype=str(np.dtype(dt))))
     # dither: reproducible under manual_seed, zero mean, requested std
+    # in every module state a front end is used in: fresh (training mode), after .eval(), as a child of a
+    # container put in evaluation mode, back in training mode, TorchScript-compiled (both modes)
+    def states(mk, scriptable=True):
+        yield "fresh", mk()
+        m = mk()
+        m.eval()
+        yield "eval", m
+        seq = torch.nn.Sequential(mk())
+        seq.eval()
+        yield "child of eval() container", seq
+        m = mk()
+        m.eval()
+        m.train()
+        yield "eval().train()", m
+        if not scriptable:
+            return
+        yield "scripted", torch.jit.script(mk())
+        m = torch.jit.script(mk())
+        m.eval()
+        yield "scripted eval", m
+
     for coeff in (1.0, 0.25, 3.0):
-        d = pst.PyTorchDither(coeff)
-        x = torch.zeros(200000, dtype=torch.float64)
-        torch.manual_seed(1234)
-        a = d(x)
-        torch.manual_seed(1234)
-        b = d(x)
-        ctx.count("dither")
-        if not torch.equal(a, b):
-            bad.append(dict(what="PyTorchDither not reproducible under torch.manual_seed", coeff=coeff))
-        if abs(float(a.mean())) > 0.02 * coeff or abs(float(a.std()) - coeff) > 0.02 * coeff:
-            bad.append(dict(what="PyTorchDither moments", coeff=coeff, mean=float(a.mean()), std=float(a.std())))
+        for state, d in states(lambda: pst.PyTorchDither(coeff)):
+            x = torch.zeros(200000, dtype=torch.float64)
+            torch.manual_seed(1234)
+            a = d(x)
+            torch.manual_seed(1234)
+            b = d(x)
+            ctx.count("dither:" + state)
+            ctx.case(dict(kind="dither", coeff=coeff, module_state=state), nontrivial=True)
+            if not torch.equal(a, b):
+                bad.append(dict(what="PyTorchDither not reproducible under torch.manual_seed", coeff=coeff, module_state=state))
+            if abs(float(a.mean())) > 0.02 * coeff or abs(float(a.std()) - coeff) > 0.02 * coeff:
+                bad.append(dict(what="PyTorchDither does not add zero-mean noise of the requested standard deviation",
+                                coeff=coeff, module_state=state, mean=float(a.mean()), std=float(a.std())))
+            torch.manual_seed(77)
+            c2 = d(x)
+            if torch.equal(a, c2):
+                bad.append(dict(what="PyTorchDither ignores torch.manual_seed (same noise under another seed)", coeff=coeff, module_state=state))
+    # the deterministic modules must not depend on the module state either
+    x = torch.from_numpy(nprng.randn(300))
+    feats = torch.from_numpy(nprng.randn(9, 6))
+    bank = filters.Fbank(num_filts=6, sampling_rate=8000)
+    cst = compute.STFTFrameComputer(bank, frame_length_ms=10.0, frame_shift_ms=5.0, include_energy=True)
+    makers = [
+        ("PyTorchPreemphasize", lambda: pst.PyTorchPreemphasize.from_preemphasize(pre.Preemphasize(0.97)), x, pre.Preemphasize(0.97).apply(x.numpy())),
+        ("PyTorchPostProcessorWrapper(Deltas)", lambda: pst.PyTorchPostProcessorWrapper.from_postprocessor(post.Deltas(2)), feats, post.Deltas(2).apply(feats.numpy())),
+        ("PyTorchSTFTFrameComputer", lambda: pst.PyTorchSTFTFrameComputer.from_stft_frame_computer(cst), x, cst.compute_full(x.numpy())),
+    ]
+    for nm, mkm, inp, ref in makers:
+        for state, m in states(mkm, scriptable=not nm.startswith("PyTorchPostProcessorWrapper")):  # that one wraps a numpy object
+            try:
+                got = m(inp).detach().numpy()
+            except Exception as e:  # noqa
+                bad.append(dict(what="%s raises %s in module state %s" % (nm, type(e).__name__, state)))
+                continue
+            ctx.count("state:" + state)
+            if got.shape != ref.shape or not np.allclose(got, ref, rtol=2e-4, atol=2e-5):
+                bad.append(dict(what="%s differs from its NumPy counterpart in module state '%s'" % (nm, state)))
     return bad
 
 
